@@ -74,6 +74,7 @@ def _case(draw, tier):
         (1, ops.dmeta_op(PIDS, FORMATS[1:])),
         (1, ops.retrieve_op(PIDS)),
         (1, ops.hexd_op(PIDS)),
+        (1, ops.decoy_op(PIDS, ("-", None, FORMATS[1]))),
         (1, ops.REOPEN))
     n = 30 if tier == "quick" else 50
     return {"cfg": cfg, "contents": cs, "docs": docs, "ops": draw(st.lists(ops.on_instances(op), min_size=1, max_size=n))}
